@@ -61,6 +61,11 @@ def survey_h(case, variant):
         elif o["t"] == "zs":
             obs.append({"t": "s-distance", "from": f, "to": t, "to2": ""})
             obs.append({"t": "z-angle", "from": f, "to": t, "to2": ""})
+        elif o["t"] == "zd":
+            obs.append({"t": "distance", "from": f, "to": t, "to2": ""})
+            obs.append({"t": "z-angle", "from": f, "to": t, "to2": ""})
+        elif o["t"] == "za":
+            obs.append({"t": "z-angle", "from": f, "to": t, "to2": ""})
         else:
             obs.append({"t": "vector", "from": f, "to": t, "to2": ""})
     net = {"t": "acordh", "dim": 3, "pts": pts, "obs": obs, "axes": axes, "lefthanded": lh, "noise": 0, "orient": 137531}
